@@ -129,6 +129,9 @@ func c06Envs(c *Ctx) []*c06Env {
 		c06NewEnv("C", 6, []int{50, 40, 40, 40, 40, 40}, []int{55}, 40, ring.ConjugateInvariant),
 		c06NewEnv("D", 5, []int{55, 55, 45, 45, 45, 45}, []int{61}, 90, ring.Standard),
 		c06NewEnv("E", 5, []int{45, 30, 30}, []int{45}, 30, ring.Standard),
+		// strongly unequal prime sizes: the dropped primes are 15-20 bits larger than lower ones
+		c06NewEnv("U1", 5, []int{55, 45, 60, 45, 60}, []int{61}, 105, ring.Standard), // two primes per rescale
+		c06NewEnv("U2", 5, []int{50, 40, 40, 60, 60}, []int{61}, 40, ring.Standard),  // one prime per rescale
 	}
 	if c.Thorough() {
 		envs = append(envs,
@@ -226,6 +229,7 @@ type c06Op struct {
 	n       int
 	skind   string
 	outM    *c06M // explicit receiver metadata for alias 'f' (nil: New-style receiver)
+	recv    *rlwe.Ciphertext // tie only: an existing transparent receiver with a history (alias 'f')
 	effOff  bool
 }
 
@@ -352,46 +356,44 @@ func (e *c06Env) line(op *c06Op, a, b, o c06M, eff bool) string {
 // effParts reads the integer effect of the call from the result: for every component i the
 // coefficients at the exponents of op0.c_i (1+4i), op1.c_i (2+4i), old receiver c_i (4+4i) and, for
 // complex constants, at N/2 + exponent ("0" where the operand has no such component).
-func (e *c06Env) effParts(op *c06Op, res *rlwe.Ciphertext, am, bm, om c06M) []string {
+func (e *c06Env) effParts(op *c06Op, res *rlwe.Ciphertext) []string {
 	h := e.N / 2
 	D := res.Degree()
-	one := func(comp, idx int, ok bool) string {
-		if !ok {
+	// every listed position is READ from the result (also where the model predicts 0: a stale or wrongly
+	// copied component must show up); only the N/2 positions of the conjugate-invariant ring are skipped
+	one := func(comp, idx int) string { return e.coef(res, comp, idx)[0] }
+	im := func(comp, idx int) string {
+		if e.ci {
 			return "0"
 		}
 		return e.coef(res, comp, idx)[0]
 	}
-	bDeg := bm.degree
-	if op.bIsPt {
-		bDeg = 0
-	}
-	freshO := op.alias == 'f' && !op.useNew
 	var parts []string
 	switch op.kind {
 	case "addelt":
 		for i := 0; i <= D; i++ {
-			parts = append(parts, one(i, 1+4*i, i <= am.degree), one(i, 2+4*i, i <= bDeg), one(i, 4+4*i, freshO && i <= om.degree))
+			parts = append(parts, one(i, 1+4*i), one(i, 2+4*i), one(i, 4+4*i))
 		}
 	case "addsc":
-		parts = append(parts, one(0, 0, true), one(0, h, !e.ci))
+		parts = append(parts, one(0, 0), im(0, h))
 		for i := 0; i <= D; i++ {
-			parts = append(parts, one(i, 1+4*i, true))
+			parts = append(parts, one(i, 1+4*i))
 		}
 	case "mulsc":
 		for i := 0; i <= D; i++ {
-			parts = append(parts, one(i, 1+4*i, true), one(i, h+1+4*i, !e.ci))
+			parts = append(parts, one(i, 1+4*i), im(i, h+1+4*i))
 		}
 	case "mtasc":
 		for i := 0; i <= D; i++ {
-			parts = append(parts, one(i, 4+4*i, i <= om.degree), one(i, 1+4*i, i <= am.degree), one(i, h+1+4*i, !e.ci && i <= am.degree))
+			parts = append(parts, one(i, 4+4*i), one(i, 1+4*i), im(i, h+1+4*i))
 		}
 	case "mtaelt", "mtavec":
 		for i := 0; i <= D; i++ {
-			parts = append(parts, one(i, 4+4*i, i <= om.degree))
+			parts = append(parts, one(i, 4+4*i))
 		}
 	case "setscale", "scaleup":
 		for i := 0; i <= D; i++ {
-			parts = append(parts, one(i, 1+4*i, true))
+			parts = append(parts, one(i, 1+4*i))
 		}
 	}
 	return parts
@@ -421,7 +423,11 @@ func (e *c06Env) tie(c *Ctx, op *c06Op, am, bm, om c06M) string {
 	case '1':
 		o = bct
 	default:
-		o = e.transp(om, 4, false)
+		if op.recv != nil {
+			o = op.recv
+		} else {
+			o = e.transp(om, 4, false)
+		}
 	}
 	eff := !op.effOff
 	var metaTok string
@@ -440,7 +446,7 @@ func (e *c06Env) tie(c *Ctx, op *c06Op, am, bm, om c06M) string {
 			if op.kind == "rescaleto" {
 				parts = []string{I(am.level - res.Level())}
 			} else {
-				parts = e.effParts(op, res, am, bm, om)
+				parts = e.effParts(op, res)
 			}
 			if len(parts) == 0 {
 				s += " -"
@@ -491,6 +497,9 @@ func (e *c06Env) noiseTerm(scale rlwe.Scale) float64 {
 func (e *c06Env) fresh(c *Ctx, level, logSlots int, scale rlwe.Scale) *c06Reg {
 	if e.ci && logSlots == 0 {
 		logSlots = 1 // one slot in the conjugate-invariant ring does not even round-trip (C07 finding)
+	}
+	for level < e.params.MaxLevel() && float64(e.params.LogQLvl(level)) < scale.Log2()+8 {
+		level++ // the message must fit Q_level
 	}
 	vals := e.randVals(c, 1<<logSlots, 1)
 	pt := ckks.NewPlaintext(e.params, level)
@@ -1128,6 +1137,8 @@ func genC06(c *Ctx) {
 		c.Count("programs:" + e.tag)
 	}
 	c06Directed(c, envs)
+	c06History(c, envs)
+	c06RescaleChains(c, envs)
 	c06Malformed(c, envs)
 }
 
@@ -1216,6 +1227,205 @@ func c06Directed(c *Ctx, envs []*c06Env) {
 					}
 				}
 			}
+		}
+	}
+}
+
+// probeVals compares decrypt+decode of ct with want (periodic extension) and emits program_precision.
+func (e *c06Env) probeVals(c *Ctx, ct *rlwe.Ciphertext, want []complex128, tol float64, args, key string) {
+	d := Try(func() string {
+		have := e.decode(ct)
+		for i := range have {
+			if x := cmplx.Abs(have[i] - c06At(want, i)); !(x <= tol) {
+				return fmt.Sprintf("slot=%d log2err=%d log2tol=%d level=%d degree=%d", i, int(math.Ceil(math.Log2(x))), int(math.Ceil(math.Log2(tol))), ct.Level(), ct.Degree())
+			}
+		}
+		return ""
+	})
+	c.Probe("program_precision", args, key, d)
+}
+
+// fits reports whether a message of magnitude mag at the ciphertext's scale fits Q_level (with margin).
+func (e *c06Env) fits(ct *rlwe.Ciphertext, mag float64) bool {
+	return math.Log2(mag+1)+ct.Scale.Log2()+3 < float64(e.params.LogQLvl(ct.Level()))
+}
+
+// tolFor: the stated bound 64*C*N/scale with the smaller of the default and the ciphertext's scale.
+func (e *c06Env) tolFor(ct *rlwe.Ciphertext) float64 {
+	s := e.params.DefaultScale()
+	if ct.Scale.Cmp(s) < 0 {
+		s = ct.Scale
+	}
+	return 64*e.noiseTerm(s) + math.Exp2(-40)
+}
+
+func c06MulVals(a, b []complex128) []complex128 {
+	w := make([]complex128, len(a))
+	for i := range w {
+		w[i] = a[i] * c06At(b, i)
+	}
+	return w
+}
+
+func c06AddVals(a, b []complex128) []complex128 {
+	w := make([]complex128, len(a))
+	for i := range w {
+		w[i] = a[i] + c06At(b, i)
+	}
+	return w
+}
+
+// c06History: sequences on ONE accumulator / receiver whose degree grows, shrinks and grows again and whose
+// level drops and is raised again: a component or limb that re-appears must be zero / fully rewritten.
+//   real:  MulThenAdd(a,b,acc) -> Relinearize(acc,acc) -> MulThenAdd(c,d,acc) -> Relinearize(acc,acc)
+//          -> DropLevel(acc) -> MulRelinThenAdd(a,b,acc) -> DropLevel(acc, lcpr+1) -> Rescale(x, acc) (level raised)
+//          -> Add(acc,acc,acc)                                  (precision probe after every step)
+//   tie:   transparent receiver of degree 2 shrunk with Element.Resize(1, level), then grown again by
+//          MulThenAdd (element operands) resp. MulThenAdd (scalar, op0 of degree 2): the effect on component 2
+//          is read back and must be the model's (multiplier 0 on the receiver's vanished component).
+func c06History(c *Ctx, envs []*c06Env) {
+	for _, e := range envs {
+		ds := e.params.DefaultScale()
+		ds2 := ds.Mul(ds)
+		L := e.params.MaxLevel()
+		lc := e.params.LevelsConsumedPerRescaling()
+		for rep := 0; rep < c.Scale(1, 4); rep++ {
+			ls := e.logMax
+			if rep > 0 {
+				ls = 1 + c.rng.Intn(e.logMax)
+			}
+			a, b, x2, d := e.fresh(c, L, ls, ds), e.fresh(c, L, ls, ds), e.fresh(c, L, ls, ds), e.fresh(c, L, ls, ds)
+			acc := e.fresh(c, L, ls, ds2)
+			want := acc.want
+			step := func(name string, f func() error, upd func()) bool {
+				var err error
+				out := Try(func() string { err = f(); return "" })
+				args := fmt.Sprintf("%s history rep=%d step=%s", e.tag, rep, name)
+				if out == "panic" || err != nil {
+					c.Probe("program_precision", args, "C06/precision:history", "call failed")
+					return false
+				}
+				upd()
+				if !e.fits(acc.ct, c06MaxAbs(want)) {
+					c.Count("history-stopped-overflow")
+					return name == "drop2" // the receiver is overwritten by the next step
+				}
+				e.probeVals(c, acc.ct, want, e.tolFor(acc.ct), args, "C06/precision:history")
+				return true
+			}
+			ab, cd := c06MulVals(a.want, b.want), c06MulVals(x2.want, d.want)
+			ok := step("mta1", func() error { return e.eval.MulThenAdd(a.ct, b.ct, acc.ct) }, func() { want = c06AddVals(want, ab) }) &&
+				step("relin1", func() error { return e.eval.Relinearize(acc.ct, acc.ct) }, func() {}) &&
+				step("mta2", func() error { return e.eval.MulThenAdd(x2.ct, d.ct, acc.ct) }, func() { want = c06AddVals(want, cd) }) &&
+				step("relin2", func() error { return e.eval.Relinearize(acc.ct, acc.ct) }, func() {}) &&
+				step("drop1", func() error { e.eval.DropLevel(acc.ct, 1); return nil }, func() {}) &&
+				step("mrta3", func() error { return e.eval.MulRelinThenAdd(a.ct, b.ct, acc.ct) }, func() { want = c06AddVals(want, ab) })
+			if ok && L-lc-1 >= 0 {
+				x, err := e.eval.MulRelinNew(a.ct, b.ct)
+				if err != nil {
+					panic(err)
+				}
+				_ = step("drop2", func() error { e.eval.DropLevel(acc.ct, acc.ct.Level()-(L-lc-1)); return nil }, func() {}) &&
+					step("rescale-into-lower-receiver", func() error { return e.eval.Rescale(x, acc.ct) }, func() { want = ab }) &&
+					step("add-inplace", func() error { return e.eval.Add(acc.ct, acc.ct, acc.ct) }, func() { want = c06AddVals(want, want) })
+			}
+			c.Count("history:" + e.tag)
+		}
+		// ties on a transparent receiver with a history
+		for _, kind := range []string{"mtaelt", "mtasc"} {
+			lvl := L
+			accT := e.transp(c06M{lvl, 2, e.logMax, ds2}, 4, false)
+			accT.Resize(1, lvl) // shrink: the degree-2 polynomial stays in the spare capacity of the slice
+			om := c06MetaOf(accT.El())
+			op := &c06Op{kind: kind, alias: 'f', recv: accT}
+			if kind == "mtaelt" {
+				e.tie(c, op, c06M{lvl, 1, e.logMax, ds}, c06M{lvl, 1, e.logMax, ds}, om)
+			} else {
+				op.scalar, op.re, op.im, op.cval = 3, new(big.Float).SetInt64(3), new(big.Float), 3
+				e.tie(c, op, c06M{lvl, 2, e.logMax, ds2}, c06M{}, om)
+			}
+			c.Count("tie-history:" + kind)
+		}
+	}
+}
+
+var errC06Skip = fmt.Errorf("skip")
+
+// c06RescaleChains: Rescale (one or two primes) and RescaleTo across several levels right after constant /
+// ciphertext multiplications, on every parameter set -- in particular the ones with strongly unequal primes.
+func c06RescaleChains(c *Ctx, envs []*c06Env) {
+	for _, e := range envs {
+		ds := e.params.DefaultScale()
+		L := e.params.MaxLevel()
+		lc := e.params.LevelsConsumedPerRescaling()
+		for rep := 0; rep < c.Scale(2, 6); rep++ {
+			ls := e.logMax
+			if rep%2 == 1 {
+				ls = c.rng.Intn(e.logMax + 1)
+			}
+			x, y := e.fresh(c, L, ls, ds), e.fresh(c, L, ls, ds)
+			n := len(x.want)
+			v1, v2 := e.randVals(c, n, 1), e.randVals(c, n, 1)
+			run := func(name string, f func() (*rlwe.Ciphertext, []complex128, error)) {
+				args := fmt.Sprintf("%s chain rep=%d %s", e.tag, rep, name)
+				var ct *rlwe.Ciphertext
+				var want []complex128
+				var err error
+				out := Try(func() string { ct, want, err = f(); return "" })
+				if err == errC06Skip {
+					c.Count("rescale-chain-skipped-overflow")
+					return
+				}
+				if out == "panic" || err != nil {
+					c.Probe("program_precision", args, "C06/precision:rescale-chain", "call failed")
+					return
+				}
+				e.probeVals(c, ct, want, e.tolFor(ct), args, "C06/precision:rescale-chain")
+			}
+			// ct*vector then Rescale (lcpr primes)
+			run("mulvec-rescale", func() (*rlwe.Ciphertext, []complex128, error) {
+				z, err := e.eval.MulNew(x.ct, v1)
+				if err != nil {
+					return nil, nil, err
+				}
+				return z, c06MulVals(x.want, v1), e.eval.Rescale(z, z)
+			})
+			// ct*ct, relinearised, then Rescale into a fresh receiver
+			run("mulrelin-rescale-new-receiver", func() (*rlwe.Ciphertext, []complex128, error) {
+				z, err := e.eval.MulRelinNew(x.ct, y.ct)
+				if err != nil {
+					return nil, nil, err
+				}
+				o := ckks.NewCiphertext(e.params, 1, L)
+				return o, c06MulVals(x.want, y.want), e.eval.Rescale(z, o)
+			})
+			// two constant multiplications at the same level, then RescaleTo across 2*lcpr primes
+			if L >= 2*lc {
+				for _, inplace := range []bool{true, false} {
+					run(fmt.Sprintf("mulvec-mulvec-rescaleto inplace=%v", inplace), func() (*rlwe.Ciphertext, []complex128, error) {
+						z, err := e.eval.MulNew(x.ct, v1)
+						if err != nil {
+							return nil, nil, err
+						}
+						if err = e.eval.Mul(z, v2, z); err != nil {
+							return nil, nil, err
+						}
+						if !e.fits(z, 1) {
+							return nil, nil, errC06Skip
+						}
+						o := z
+						if !inplace {
+							o = ckks.NewCiphertext(e.params, 1, c.rng.Intn(L+1))
+						}
+						err = e.eval.RescaleTo(z, ds, o)
+						if err == nil && o.Level() != L-2*lc {
+							err = fmt.Errorf("unexpected level")
+						}
+						return o, c06MulVals(c06MulVals(x.want, v1), v2), err
+					})
+				}
+			}
+			c.Count("rescale-chain:" + e.tag)
 		}
 	}
 }
